@@ -1,7 +1,255 @@
 import KM.Driver.Core
-/-! Driver for C04 (stub until the property's model is built). -/
-namespace KM.Driver.C04
+import KM.Model.Token
+/-! Driver for C04: line protocol between checks/C04.py, the Go harness and `KM.Token`.
 
-def handler (_mode : String) : Option Handler := none
+`call <consumer> <nowSec> <nowNsec> <issuerHex> <keys> <A> <B> <C> <D> <E> <alg> <by> <sigAlg> <wire>`
+  keys  = `id:type,…`        wire = `-` | `key=val;key=val…`     val = s<hex> | n<int> | l<hex,…> | z | o
+`emit <kind> …` prints the claims a producer mints. -/
+namespace KM.Driver.C04
+open KM.Util KM.Token
+
+def strOfHex (h : String) : Option Str := (unhex h).map String.toList
+def hexOfStr (s : Str) : String := hex (String.ofList s)
+
+def tailStr (s : String) : String := String.ofList (s.toList.drop 1)
+
+def parseVal (s : String) : Option Val :=
+  match s.toList with
+  | 's' :: _ => (strOfHex (tailStr s)).map Val.str
+  | 'n' :: _ => (tailStr s).toInt?.map Val.num
+  | 'l' :: rest =>
+    if rest.isEmpty then some (.strs [])
+    else ((tailStr s).splitOn ",").mapM strOfHex |>.map Val.strs
+  | ['z'] => some .null
+  | ['o'] => some .other
+  | _ => none
+
+def showVal : Val → String
+  | .str s => "s" ++ hexOfStr s
+  | .num i => "n" ++ toString i
+  | .strs l => "l" ++ ",".intercalate (l.map hexOfStr)
+  | .null => "z"
+  | .other => "o"
+
+def fieldOfName (n : String) : Option Field :=
+  Field.all.find? (fun f => String.ofList f.json == n)
+
+def parseWire (s : String) : Option Wire :=
+  if s == "-" then some Wire.empty
+  else (s.splitOn ";").foldlM (fun (w : Wire) kv =>
+    match kv.splitOn "=" with
+    | [k, v] => do
+      let f ← fieldOfName k
+      let x ← parseVal v
+      pure (w.set f (some x))
+    | _ => none) Wire.empty
+
+def showWire (w : Wire) : String :=
+  let parts := Field.all.filterMap (fun f => (w f).map (fun v => String.ofList f.json ++ "=" ++ showVal v))
+  if parts.isEmpty then "-" else ";".intercalate parts
+
+def parseAlg : String → Option Alg
+  | "RS256" => some .RS256 | "RS384" => some .RS384 | "RS512" => some .RS512 | "PS256" => some .PS256
+  | "ES256" => some .ES256 | "ES384" => some .ES384 | "ES512" => some .ES512 | "EdDSA" => some .EdDSA
+  | "HS256" => some .HS256 | "none" => some .none | "other" => some .other
+  | _ => none
+
+def parseKeyType : String → Option KeyType
+  | "rsa" => some .rsa | "p256" => some .p256 | "p384" => some .p384 | "p521" => some .p521
+  | "ed25519" => some .ed25519 | "unsupported" => some .unsupported
+  | _ => none
+
+def parseKeys (s : String) : Option (List Key) :=
+  if s == "-" then some []
+  else (s.splitOn ",").mapM (fun kv =>
+    match kv.splitOn ":" with
+    | [i, t] => do pure { id := ← i.toNat?, ty := ← parseKeyType t }
+    | _ => none)
+
+def parseConsumer : String → Option Consumer
+  | "session" => some .session | "upgrade" => some .upgrade | "cliVerify" => some .cliVerify
+  | "cliSend" => some .cliSend | "storage" => some .storage | "code" => some .code
+  | "access" => some .access
+  | _ => none
+
+def showRej : Rej → String
+  | .crypto => "crypto" | .values => "values" | .expired => "expired" | .level => "level"
+  | .user => "user" | .notFound => "notFound" | .subject => "subject" | .dtype => "dtype"
+  | .clientAuth => "clientAuth" | .redirect => "redirect" | .kind => "kind" | .issuer => "issuer"
+  | .audience => "audience" | .noCookie => "noCookie"
+
+structure Call where
+  c : Consumer
+  x : Ctx
+  a : Artefact
+  slots : List String
+
+def optInt (s : String) : Option Int := if s == "-" then some 0 else s.toInt?
+def optNat (s : String) : Option Nat := if s == "-" then some 0 else s.toNat?
+
+/-- fill the context from the five generic slots -/
+def mkCtx (c : Consumer) (d : Deployment) (now : Clock) (s : List String) : Option Ctx :=
+  let base : Ctx := { dep := d, now := now }
+  match c, s with
+  | .session, [a, _, _, _, _] => do pure { base with required := ← optNat a }
+  | .upgrade, [a, _, _, _, _] => do pure { base with newLevel := ← optInt a }
+  | .cliVerify, _ => some base
+  | .cliSend, [a, b, _, _, _] => do pure { base with authUser := ← strOfHex a, required := ← optNat b }
+  | .storage, [a, b, cu, ct, ce] => do
+    pure { base with lookupUser := ← strOfHex a, lookupType := ← optInt b, colUser := ← strOfHex cu,
+                     colType := ← optInt ct, colExp := ← optInt ce }
+  | .code, [a, b, ok, _, _] => do
+    pure { base with clientID := ← strOfHex a, redirect := ← strOfHex b, clientAuthOK := ← parseBool ok }
+  | .access, _ => some base
+  | _, _ => none
+
+def parseCall : List String → Option (Call × List String)
+  | "call" :: c :: ns :: nn :: iss :: keys :: sa :: sb :: sc :: sd :: se :: alg :: by_ :: sig :: wire :: rest => do
+    let c ← parseConsumer c
+    let now : Clock := { sec := ← ns.toInt?, nsec := ← nn.toNat? }
+    let d : Deployment := { issuer := ← strOfHex iss, trusted := ← parseKeys keys }
+    let x ← mkCtx c d now [sa, sb, sc, sd, se]
+    let signedBy ← (if by_ == "-" then some none else by_.toNat?.map some)
+    let a : Artefact := { claims := ← parseWire wire, alg := ← parseAlg alg, signedBy := signedBy,
+                          sigAlg := ← parseAlg sig }
+    pure ({ c := c, x := x, a := a, slots := [sa, sb, sc, sd, se] }, rest)
+  | _ => none
+
+def rowOf (x : Ctx) (a : Artefact) : Row :=
+  { user := x.colUser, ty := x.colType, expCol := x.colExp, jws := a }
+
+/-- a fresh, valid session cookie of `user` signed by the deployment's first key (what the harness
+presents to `SendAuthDocumentHandler` next to the CLI token under test) -/
+def goodCookie (x : Ctx) (user : Str) : Option Artefact :=
+  match x.dep.trusted with
+  | k :: _ => (algOf k.ty).map fun al =>
+    { claims := emitSession x.dep user x.required x.now.sec 1000, alg := al, signedBy := some k.id, sigAlg := al }
+  | [] => none
+
+def showFx (e : Effects) : String :=
+  s!"fx={if e.setCookie.isSome then 1 else 0}{e.handedOut.length}{if e.disclosed.isSome then 1 else 0}"
+
+def dummyCode (d : Deployment) (now : Clock) (info : AuthInfo) : List Wire :=
+  [emitCode d { client := [], user := info.username, scope := [], nonce := [], redirect := [],
+                accessAudience := [], jti := [], protectedDataKey := [], protectedData := [] } now.sec]
+
+/-- decision text and handler-level effects of one call -/
+def decide_ (k : Call) (old : Bool) : String × Effects :=
+  let d := k.x.dep
+  let now := k.x.now
+  match k.c with
+  | .session =>
+    let o := hWithSession d now k.x.required (some k.a) (dummyCode d now)
+    (match acceptSession d now k.x.required k.a with
+     | .ok i => s!"ok {hexOfStr i.username} {i.authType} {i.expiresAt}"
+     | .error e => "rej " ++ showRej e, o.2)
+  | .upgrade =>
+    let o := hUpgrade d now k.x.newLevel (some k.a)
+    (match acceptUpgrade d now k.x.newLevel k.a with
+     | .ok c => "ok " ++ showWire (emitAuth c)
+     | .error e => "rej " ++ showRej e, o.2)
+  | .cliVerify =>
+    let o := hCliVerify d now k.a
+    (match acceptCliVerify d now k.a with
+     | .ok _ => "ok"
+     | .error e => "rej " ++ showRej e, o.2)
+  | .cliSend =>
+    let o := hCliSend d now k.x.required (goodCookie k.x k.x.authUser) k.a
+    (match o.1 with
+     | .ok _ => "ok " ++ ";".intercalate (o.2.handedOut.map showWire)
+     | .error e => "rej " ++ showRej e, o.2)
+  | .storage =>
+    if old then
+      (match acceptStorageOld d now (some (rowOf k.x k.a)) k.x.lookupUser k.x.lookupType with
+       | .ok s => ("ok " ++ hexOfStr s, ⟨none, [], some s⟩)
+       | .error e => ("rej " ++ showRej e, Effects.nothing))
+    else
+      let o := hGetSigned d now (some (rowOf k.x k.a)) k.x.lookupUser k.x.lookupType
+      (match acceptStorage d now (some (rowOf k.x k.a)) k.x.lookupUser k.x.lookupType with
+       | .ok s => "ok " ++ hexOfStr s
+       | .error e => "rej " ++ showRej e, o.2)
+  | .code =>
+    let o := hToken d now k.x.clientID k.x.redirect k.x.clientAuthOK k.a
+    (match acceptCode d now k.x.clientID k.x.redirect k.x.clientAuthOK k.a with
+     | .ok c => "ok " ++ hexOfStr (gStr c .username)
+     | .error e => "rej " ++ showRej e, o.2)
+  | .access =>
+    let o := hUserinfo d now k.a
+    (match acceptAccess d now k.a with
+     | .ok u => "ok " ++ hexOfStr u
+     | .error e => "rej " ++ showRej e, o.2)
+
+def emitOp : List String → Option String
+  | ["session", iss, user, level, t, dur] => do
+    let d : Deployment := { issuer := ← strOfHex iss, trusted := [] }
+    pure (showWire (emitSession d (← strOfHex user) (← level.toInt?) (← t.toInt?) (← dur.toInt?)))
+  | ["cli", iss, user, t, life] => do
+    let d : Deployment := { issuer := ← strOfHex iss, trusted := [] }
+    pure (showWire (emitCli d (← strOfHex user) (← t.toInt?) (← life.toInt?)))
+  | ["storage", iss, user, ty, data, exp, t] => do
+    let d : Deployment := { issuer := ← strOfHex iss, trusted := [] }
+    pure (showWire (emitStorage d (← strOfHex user) (← ty.toInt?) (← strOfHex data) (← exp.toInt?) (← t.toInt?)))
+  | ["code", iss, client, user, scope, nonce, redirect, aa, jti, pdk, pd, t] => do
+    let d : Deployment := { issuer := ← strOfHex iss, trusted := [] }
+    let aud ← (match ← parseVal aa with | .strs l => some l | _ => none)
+    let client ← strOfHex client
+    let user ← strOfHex user
+    let scope ← strOfHex scope
+    let nonce ← strOfHex nonce
+    let redirect ← strOfHex redirect
+    let jti ← strOfHex jti
+    let pdk ← strOfHex pdk
+    let pd ← strOfHex pd
+    let t ← t.toInt?
+    let p : CodeParams := ⟨client, user, scope, nonce, redirect, aud, jti, pdk, pd⟩
+    pure (showWire (emitCode d p t))
+  | ["access", iss, t, wire] => do
+    let d : Deployment := { issuer := ← strOfHex iss, trusted := [] }
+    pure (showWire (emitAccess d (← parseWire wire) (← t.toInt?)))
+  | ["id", iss, client, t, wire] => do
+    let d : Deployment := { issuer := ← strOfHex iss, trusted := [] }
+    pure (showWire (emitId d (← parseWire wire) (← strOfHex client) (← t.toInt?)))
+  | _ => none
+
+def modelWith (old : Bool) (fs : List String) : String :=
+  match fs with
+  | "emit" :: rest => (emitOp rest).getD "bad-op"
+  | _ =>
+    match parseCall fs with
+    | some (k, []) => let r := decide_ k old; r.1 ++ " " ++ showFx r.2
+    | _ => "bad-op"
+
+/-- `call … <wire> <acc|rej> <fx>`: apply the property predicate to what the implementation did -/
+def judge (fs : List String) : String :=
+  match parseCall fs with
+  | some (k, [dec, fx]) =>
+    if dec == "acc" then
+      if honourable k.c k.x k.a then "ok"
+      else
+        let why :=
+          (if !signedByDeployment k.x.dep k.a then ["not-signed-by-deployment"] else []) ++
+          (if !hasMarker k.c.purpose k.a.claims then ["wrong-kind"] else []) ++
+          (if !(match k.c with
+                | .upgrade => decide (gInt k.a.claims .nbf ≤ k.x.now.sec)
+                | c => inWindow c.purpose k.x.now k.a.claims) then ["outside-validity-window"] else []) ++
+          (if !(match k.c.purpose with
+                | .session | .cli | .storage => namesThisServer k.x.dep k.a.claims
+                | _ => true) then ["issuer-or-audience-not-this-server"] else []) ++
+          (if !(match k.c with
+                | .storage => gStr k.a.claims .sub == k.x.lookupUser && gInt k.a.claims .dataType == k.x.lookupType
+                | .code => gStr k.a.claims .sub == k.x.clientID
+                | .cliSend => gStr k.a.claims .sub == k.x.authUser
+                | _ => true) then ["not-bound-to-this-request"] else [])
+        "viol accepted " ++ ",".intercalate why
+    else if dec == "rej" then
+      if fx == "fx=000" then "ok" else "viol rejected-with-side-effects " ++ fx
+    else "bad-op"
+  | _ => "bad-op"
+
+def handler (mode : String) : Option Handler :=
+  if mode == "model" then some (.pure (modelWith false))
+  else if mode == "model-asfound" then some (.pure (modelWith true))
+  else if mode == "judge" then some (.pure judge)
+  else none
 
 end KM.Driver.C04
